@@ -1,36 +1,167 @@
-import LiquidVerif.Model.PathSafe
+import LiquidVerif.Lemmas.PathSafe
 /-!
 # C22 — template loaders never read outside their search paths
+
+Property theorems about `LiquidVerif.Model.PathSafe` (the model of `FileSystemLoader.resolve_path` / `_read`,
+`PackageLoader._resolve_path`, the `pathlib` primitives they call and a finite file system with symbolic
+links).  They quantify over **every** template name (any list of code points: separators, `.`/`..`, absolute
+prefixes, NUL, control characters, lone surrogates, any length), every `ext` setting, every list of search
+directories and every finite file system (any tree of directories, files and links, any working directory, any
+link budget).  Helper lemmas live in `Lemmas/PathSafe.lean`.
+
+`CachingFileSystemLoader` inherits `resolve_path`/`get_source` unchanged and the asynchronous methods run the
+same two functions in an executor, so the same theorems cover the cached and the asynchronous flavours (the
+correspondence streams exercise all of them).
 -/
 namespace LiquidVerif.C22
 open LiquidVerif.PathSafe
 
-theorem splitSlash_no_slash (s : List Ch) : ∀ w ∈ splitSlash s, SLASH ∉ w := by
-  induction s with
-  | nil => simp [splitSlash]
-  | cons c cs ih =>
-    unfold splitSlash
-    split
-    · intro w hw
-      simp only [List.mem_cons] at hw
-      rcases hw with rfl | hw
-      · simp
-      · exact ih w hw
-    · rename_i hc
-      split
-      · intro w hw
-        simp only [List.mem_cons, List.not_mem_nil, or_false] at hw
-        subst hw
-        simp only [List.mem_cons, List.not_mem_nil, or_false]
-        exact fun e => hc e.symm
-      · rename_i w ws heq
-        intro v hv
-        simp only [List.mem_cons] at hv
-        rw [heq] at ih
-        rcases hv with rfl | hv
-        · have := ih w (by simp)
-          simp only [List.mem_cons, not_or]
-          exact ⟨fun e => hc e.symm, this⟩
-        · exact ih v (by simp [hv])
+/-- the canonical, link-free location a path denotes (the kernel's walk; `none` when `stat` would fail) -/
+def canon (fs : FS) (p : PPath) : Option Comps :=
+  match walk false fs.root fs.maxLinks (fs.start p) p.parts with
+  | .ok (_, q) => some q
+  | .error _ => none
+
+/-! ## Sentence 1a — lexical containment: whatever is returned is `search_dir/rel` -/
+
+/-- **FileSystemLoader (cached or not, sync or async): a resolved path is a configured search directory
+followed by a non-empty relative part that has no `..`, no `.`, no empty component and no separator inside a
+component** — for every name string, including absolute ones, NUL, control characters and any `ext`. The
+relative part is the parsed name, with `ext` appended to its last component when that had no suffix. -/
+theorem fsl_resolved_inside (cfg : FSLConfig) (fs : FS) (name : List Ch) (p : PPath)
+    (h : fslResolve cfg fs name = .ok p) :
+    ∃ base ∈ cfg.search, ∃ rel, rel ≠ [] ∧ Clean rel ∧ p = ⟨base.root, base.parts ++ rel⟩ ∧
+      rel.dropLast = (parse name).parts.dropLast := by
+  unfold fslResolve at h
+  simp only at h
+  split at h
+  · cases h
+  · rename_i hn
+    split at h
+    · cases h
+    · rename_i tp' ht
+      split at h
+      · cases h
+      · rename_i hchk
+        simp only [not_or, PPath.isAbsolute, decide_eq_true_eq, Nat.not_lt, Nat.le_zero_eq] at hchk
+        obtain ⟨hr, hne, hdl, hpl⟩ := fslTarget_ok ht hn (parse_parts_plain name)
+        obtain ⟨base, hb, hp, _, _⟩ := fslSearch_ok h
+        exact ⟨base, hb, tp'.parts, hne, clean_of_plain hpl hchk.1, by rw [hp, join_rel hchk.2], hdl⟩
+
+/-- **PackageLoader** (after `fix: PackageLoader rejects absolute template names`): same statement. -/
+theorem pkg_resolved_inside (cfg : PkgConfig) (fs : FS) (name : List Ch) (p : PPath)
+    (h : pkgResolve cfg fs name = .ok p) :
+    ∃ base ∈ cfg.paths, ∃ rel, rel ≠ [] ∧ Clean rel ∧ p = ⟨base.root, base.parts ++ rel⟩ ∧
+      rel.dropLast = (parse name).parts.dropLast := by
+  unfold pkgResolve at h
+  simp only at h
+  split at h
+  · cases h
+  · rename_i hn
+    split at h
+    · cases h
+    · rename_i hchk
+      simp only [not_or, PPath.isAbsolute, decide_eq_true_eq, Nat.not_lt, Nat.le_zero_eq] at hchk
+      split at h
+      · cases h
+      · rename_i tp' ht
+        obtain ⟨base, hb, hp, _⟩ := pkgSearch_ok h
+        split at ht
+        · rename_i hs
+          obtain ⟨hr, hne, hdl, hpl⟩ := withSuffix_parts_plain hs ht (Or.inr trivial) (parse_parts_plain name)
+          have hdd : dotdot ∉ tp'.parts := by
+            obtain ⟨_, hnn, _, hparts⟩ := withSuffix_ok hs ht
+            rw [hparts]
+            simp only [List.mem_append, List.mem_cons, List.not_mem_nil, or_false, not_or]
+            refine ⟨fun hm => hchk.1 ((List.dropLast_sublist _).subset hm), ?_⟩
+            intro e
+            -- `name ++ ext = ".."` would need a suffix-less name "." or ".." — both excluded
+            have hmem := name_mem_parts hnn
+            have hpn := parse_parts_plain name _ hmem
+            cases hnm : (parse name).name with
+            | nil => exact hnn hnm
+            | cons a as =>
+              rw [hnm] at e
+              cases as with
+              | nil =>
+                simp only [dotdot, List.cons_append, List.nil_append, List.cons.injEq] at e
+                exact hpn.2.1 (by rw [hnm, ← e.1]; rfl)
+              | cons b bs =>
+                simp only [dotdot, List.cons_append, List.cons.injEq] at e
+                have hbs : bs = [] := by
+                  have := e.2.2; cases bs with
+                  | nil => rfl
+                  | cons _ _ => simp at this
+                exact hchk.1 (by rw [hbs, ← e.1, ← e.2.1] at hnm; rw [← hnm] at hmem; exact hmem)
+          exact ⟨base, hb, tp'.parts, hne, clean_of_plain hpl hdd, by rw [hp, join_rel (hr.trans hchk.2)], hdl⟩
+        · cases ht
+          exact ⟨base, hb, (parse name).parts, parts_ne_nil_of_name hn,
+            clean_of_plain (parse_parts_plain name) hchk.1, by rw [hp, join_rel hchk.2], rfl⟩
+
+/-! ## Sentence 1b — physical containment -/
+
+/-- **With `reject_symlinks=True` the text returned is the content of a regular file that sits — by plain
+descent, no link involved — below the directory which the search path canonically denotes.** Whatever links
+the name went through (inside, outside, absolute, chains, links back in), the bytes come from inside. -/
+theorem fsl_contents_inside_rejecting (cfg : FSLConfig) (fs : FS) (name : List Ch) (p : PPath) (c : Nat)
+    (hrej : cfg.rejectSymlinks = true) (h : fslGetSource cfg fs name = .ok (p, c)) :
+    ∃ base ∈ cfg.search, ∃ cb s, canon fs base = some cb ∧ isDir (nodeAt fs.root cb) = true ∧
+      nodeAt fs.root (cb ++ s) = some (.file c) ∧ canon fs p = some (cb ++ s) := by
+  unfold fslGetSource at h
+  split at h
+  · cases h
+  · rename_i p' hres
+    split at h
+    · cases h
+    · rename_i c' hread
+      cases h
+      obtain ⟨base, hb, rel, hne, _, hp, _⟩ := fsl_resolved_inside cfg fs name p hres
+      -- unfold the search to get the two `resolve()` results and the prefix test
+      unfold fslResolve at hres
+      simp only at hres
+      split at hres
+      · cases hres
+      · split at hres
+        · cases hres
+        · split at hres
+          · cases hres
+          · rename_i tp' _ hchk
+            simp only [not_or, PPath.isAbsolute, decide_eq_true_eq, Nat.not_lt, Nat.le_zero_eq] at hchk
+            obtain ⟨base', hb', hp', _, hrs⟩ := fslSearch_ok hres
+            obtain ⟨r, b, hr, hbr, hpre⟩ := hrs hrej
+            have hk := pyRead_ok hread
+            rw [hp', join_rel hchk.2] at hk hr
+            obtain ⟨f1, m, f, q, hw1, hw2, hnode, hr', hb''⟩ := stat_factors hk
+            have hbase : (⟨base'.root, base'.parts⟩ : PPath) = base' := rfl
+            rw [hbase] at hb'' hw1
+            rw [hr'] at hr; cases hr
+            rw [hb''] at hbr; cases hbr
+            obtain ⟨s, hs⟩ := isPrefix_append hpre
+            have hdir : isDir (nodeAt fs.root b) = true := by
+              cases hparts : tp'.parts with
+              | nil =>
+                -- the relative part is never empty
+                obtain ⟨_, _, rel, hne, _, hpe, _⟩ := fsl_resolved_inside cfg fs name _ (by
+                  show fslResolve cfg fs name = .ok (join base' tp')
+                  rw [← hp']
+                  exact by
+                    unfold fslResolve; simp only
+                    rename_i hn _ ht _
+                    simp only [hn, if_false, ht]
+                    simp only [PPath.isAbsolute, hchk.1, hchk.2, Nat.lt_irrefl, decide_false, or_self, if_false,
+                      Bool.false_eq_true]
+                    exact hres)
+                exfalso
+                rename_i hn _ ht _
+                exact (fslTarget_ok ht hn (parse_parts_plain name)).2.1 hparts
+              | cons c0 rest => rw [hparts] at hw2; exact walk_strict_isDir _ _ _ _ _ _ hw2
+            refine ⟨base', hb', b, s, ?_, hdir, by rw [← hs]; exact hnode, ?_⟩
+            · simp [canon, hw1]
+            · have hw : walk false fs.root fs.maxLinks (fs.start ⟨base'.root, base'.parts ++ tp'.parts⟩)
+                  (base'.parts ++ tp'.parts) = .ok (f, r) := by
+                have hs0 : fs.start ⟨base'.root, base'.parts ++ tp'.parts⟩ = fs.start base' := rfl
+                rw [hs0, walk_append, hw1]; exact hw2
+              rw [hp', join_rel hchk.2]
+              simp [canon, hw, hs]
 
 end LiquidVerif.C22
